@@ -286,7 +286,7 @@ theorem no_timelock {cfg : Cfg} {ctr : Int} {ts : TState} (hr : TReachable cfg c
     | pre => exact ⟨.pre, tstep_call_some hc rfl (by simp [callStep, hpc])⟩
     | select => exact ⟨.selectAdp none, tstep_call_some hc rfl (by simp [callStep, hpc])⟩
     | gate =>
-      by_cases hg : ts.base.queueLen > cfg.objQueueMax
+      by_cases hg : qGet ts.base.queueLens c.par.proxy > cfg.objQueueMax
       · exact ⟨.gate, tstep_call_some hc rfl (by simp [callStep, hpc, hg])⟩
       · exact ⟨.gate, tstep_call_some hc rfl (by simp [callStep, hpc, hg])⟩
     | incQ => exact ⟨.incQ, tstep_call_some hc rfl (by simp [callStep, hpc])⟩
